@@ -66,8 +66,8 @@ Proof.
   change (N.to_nat OPENAT2_RETRIES) with (S 15). cbn [k_resolve_loop].
   set (oflags := if nofollow then N.lor OPENAT2_RESOLVE_OFLAGS OPENAT2_RESOLVE_NOFOLLOW else OPENAT2_RESOLVE_OFLAGS).
   set (res := N.lor OPENAT2_RESOLVE_RESOLVE rflags).
-  assert (Hnf : has (N.lor oflags OPENAT2_FORCED) O_NOFOLLOW = nofollow) by (unfold oflags; destruct nofollow; vm_compute; reflexivity).
-  assert (Hop : has (N.lor oflags OPENAT2_FORCED) O_PATH = true) by (unfold oflags; destruct nofollow; vm_compute; reflexivity).
+  assert (Hnf : has (openat2_flags oflags) O_NOFOLLOW = nofollow) by (unfold oflags; destruct nofollow; vm_compute; reflexivity).
+  assert (Hop : has (openat2_flags oflags) O_PATH = true) by (unfold oflags; destruct nofollow; vm_compute; reflexivity).
   assert (Hir : has res RESOLVE_IN_ROOT = true) by (unfold res; apply has_lor_l; vm_compute; reflexivity).
   rewrite (run_bind s rp). unfold w_openat2. rewrite (tget_valid _ _ _ Hroot), Hnul, andb_false_r. cbn [negb Static.run].
   rewrite (to_c_string_id path Hnul). unfold answer. cbn [sem]. rewrite Hroot.
